@@ -41,11 +41,19 @@ def generate(rng, tier):
         if rng.random() < 0.5:
             tree.setdefault("A/B/C", {"t": "d"})
             tree.setdefault("A/B/C/deeper.bin", {"t": "f", "c": gen.unique_content(rng)})
+    same_base = rng.random() < 0.2
+    if same_base:
+        for parent in ("P1", "P2"):
+            tree.setdefault(parent, {"t": "d"})
+            tree.setdefault(parent + "/Clips", {"t": "d"})
+            tree.setdefault(parent + "/Clips/c.mov", {"t": "f", "c": gen.unique_content(rng)})
     env["tree"] = tree
     state = {"tree": dict(tree), "nested": []}
     dirs = gen.tree_dirs(tree)
     rng.shuffle(dirs)
     state["nested"] = sorted(dirs[: rng.randint(1, min(4, len(dirs)))])
+    if same_base:
+        state["nested"] = sorted(set(state["nested"]) | {"P1/Clips", "P2/Clips"})
     if "A/B/C" in tree and rng.random() < 0.5:
         # a full chain of four histories: root > A > A/B > A/B/C
         state["nested"] = sorted(set(state["nested"]) | {"A", "A/B", "A/B/C"})
